@@ -93,19 +93,28 @@ class Stack:
     def run(self, script: list[Any]) -> "Stack":
         import ropt.plugins.optimizer.scipy as plugin
 
+        buffers: dict[Any, np.ndarray] = {}
+
+        def reuse(value: np.ndarray) -> np.ndarray:
+            # like SciPy's algorithms, the driver keeps ONE array per shape and overwrites it in place for every request:
+            # whatever the plug-in keeps of a request must be a copy
+            buf = buffers.setdefault(value.shape, np.empty(value.shape))
+            buf[...] = value
+            return buf
+
         def do(request: Any, fun: Any, jac: Any, constraints: Any) -> Any:
             kind = request[0]
             if self.method == "differential_evolution":
                 pts = request[1]
                 if isinstance(pts, str):
-                    x = POINTS[pts].copy()
+                    x = reuse(POINTS[pts])
                 else:
-                    x = np.stack([POINTS[p] for p in pts], axis=1)  # (d, n) as scipy's vectorized DE passes it
+                    x = reuse(np.stack([POINTS[p] for p in pts], axis=1))  # (d, n) as scipy's vectorized DE passes it
                 if kind == "f":
                     return np.array(fun(x), copy=True)
                 nl = [c for c in constraints if hasattr(c, "fun")]
                 return np.array(nl[0].fun(x), copy=True)
-            x = POINTS[request[-1]].copy()
+            x = reuse(POINTS[request[-1]])
             if kind == "f":
                 return np.array(fun(x), copy=True)
             if kind == "g":
